@@ -1109,6 +1109,12 @@ impl MutLayout for DynLayout {
     }
 
     fn resize_dim(&mut self, dim: usize, size: usize) {
+        assert!(
+            dim < self.ndim(),
+            "dim {} out of bounds for tensor with {} dims",
+            dim,
+            self.ndim()
+        );
         self.shape_and_strides[dim] = size;
     }
 
@@ -1279,6 +1285,12 @@ pub trait ResizeLayout: MutLayout {
 impl ResizeLayout for DynLayout {
     fn insert_axis(&mut self, index: usize) {
         let ndim = self.ndim();
+        assert!(
+            index <= ndim,
+            "axis {} out of bounds for tensor with {} dims",
+            index,
+            ndim
+        );
         let new_size = 1;
 
         // Choose stride for new dimension as if we were inserting it at the
@@ -1298,6 +1310,12 @@ impl ResizeLayout for DynLayout {
     }
 
     fn remove_axis_of_any_size(&mut self, index: usize) {
+        assert!(
+            index < self.ndim(),
+            "axis {} out of bounds for tensor with {} dims",
+            index,
+            self.ndim()
+        );
         self.shape_and_strides.remove(index);
         self.shape_and_strides.remove(self.ndim() + index);
     }
